@@ -280,6 +280,19 @@ static void FN (translate_out) (FN (ent) *e, vf_rng *rng)
                           (long long)dx, (long long)dy, (long long)win_x, (long long)win_y, n, nc);
         }
     }
+    /* an empty result is the canonical empty region: no list, extents an empty box (C06 "extents equal to the tight bounding box") */
+    if (!bad && FOCUS ("C06")) {
+        BOX_T *ex = RP (extents) (&tmp); vf_count ("evaluations", 1);
+        if (n == 0 && (ex->x1 != ex->x2 || ex->y1 != ex->y2)) {
+            char key[100]; snprintf (key, sizeof key, "C06:translate-empty-result-with-stale-extents:%d", SUF);
+            vf_violation (key, "translate by (%lld,%lld) of window (%lld,%lld) drops every rectangle but leaves extents [%lld,%lld,%lld,%lld]", (long long)dx, (long long)dy, (long long)win_x, (long long)win_y,
+                          (long long)ex->x1, (long long)ex->y1, (long long)ex->x2, (long long)ex->y2);
+        } else if (!RP (selfcheck) (&tmp)) {
+            char key[100]; snprintf (key, sizeof key, "C06:selfcheck:translate%s:%d", clipped ? "-clipped" : "", SUF);
+            int only_unmerged_known = clipped && n > nc;      /* the unmerged-bands class is keyed above */
+            if (!only_unmerged_known) vf_violation (key, "the library's own selfcheck rejects the result of translate by (%lld,%lld) of window (%lld,%lld) (%d rects)", (long long)dx, (long long)dy, (long long)win_x, (long long)win_y, n);
+        }
+    }
     RP (fini) (&tmp);
 }
 
